@@ -187,11 +187,13 @@ def target_param(cfg):
     return "delay" if f.endswith("STDPD") else "weight"
 
 
-def signal_of(cfg, B):
-    """reward passed to a three-factor trainer: a float, or a tensor of per-sample rewards"""
+def signal_of(cfg, B, step=0):
+    """reward passed to a three-factor trainer at `step`: a float, or a tensor of per-sample rewards
+    (`signal_seq`: one reward vector per step, else the constant `signal`)"""
+    sig = cfg["signal_seq"][step] if cfg.get("signal_seq") else cfg["signal"]
     if cfg.get("signal_kind") == "tensor":
-        return torch.tensor(cfg["signal"][:B], dtype=torch.float64)
-    return float(cfg["signal"][0])
+        return torch.tensor(sig[:B], dtype=torch.float64)
+    return float(sig[0])
 
 
 def rows_s(t):
@@ -199,7 +201,7 @@ def rows_s(t):
     return "|".join(hexs(t[i]) for i in range(t.shape[0]))
 
 
-def request_line(cfg, layer, unit):
+def request_line(cfg, layer, unit, signal=None):
     """the driver request for the CURRENT monitor state: the magnitudes as `forward` computes them
     from the monitors + the sign flags computed from the configuration"""
     f = cfg["family"]
@@ -221,7 +223,7 @@ def request_line(cfg, layer, unit):
         dpre_b = ein.einsum(i_pre, x_post, "b ... r, b ... r -> b ...")
         if f == "STDP":
             return f"route stdp {b(a >= 0)} {b(c >= 0)} {hexs(red(dpost_b, 0))} {hexs(red(dpre_b, 0))}"
-        return three_factor_line("mstdp", cfg, B, red, dpost_b, dpre_b, a, c, lt=False)
+        return three_factor_line("mstdp", cfg, B, red, dpost_b, dpre_b, a, c, False, signal)
     if f == "TripletSTDP":
         y_a = conn.postsyn_receptive(mon["trace_post_fast"].peek())
         x_a = recv_pre(mon["trace_pre_fast"])
@@ -237,7 +239,7 @@ def request_line(cfg, layer, unit):
         dpre = red(ein.einsum(x, y_a, "b ... r, b ... r -> b ..."), 0)
         return f"route triplet {b(a >= 0)} {b(c >= 0)} {hexs(dpost)} {hexs(dpre)}"
     if f == "MSTDPET":
-        return three_factor_line("mstdp", cfg, B, red, mon["elig_post"].peek(), mon["elig_pre"].peek(), a, c, lt=False)
+        return three_factor_line("mstdp", cfg, B, red, mon["elig_post"].peek(), mon["elig_pre"].peek(), a, c, False, signal)
     if f == "LinearHomeostasis":
         target = cfg["target"]
         k = conn.postsyn_receptive((target - mon["spike_rate"].peek()) / target).mean(dim=-1)
@@ -266,8 +268,8 @@ def request_line(cfg, layer, unit):
         if f == "DelayAdjustedSTDPD":      # dneg = ge (lr_neg = a), dpos = lt (lr_pos = c); flags (lr_neg < 0, lr_pos < 0)
             return f"route dastdpd {b(a < 0)} {b(c < 0)} {hexs(red(lt, 0))} {hexs(red(ge, 0))}"
         if f == "DelayAdjustedMSTDP":      # dpost = ge (lr_pos = a), dpre = lt (lr_neg = c)
-            return three_factor_line("damstdp", cfg, B, red, ge, lt, a, c, lt=False)
-        return three_factor_line("damstdpd", cfg, B, red, ge, lt, a, c, lt=True)   # dpost = ge (lr_neg = a), dpre = lt (lr_pos = c)
+            return three_factor_line("damstdp", cfg, B, red, ge, lt, a, c, False, signal)
+        return three_factor_line("damstdpd", cfg, B, red, ge, lt, a, c, True, signal)   # dpost = ge (lr_neg = a), dpre = lt (lr_pos = c)
     raise AssertionError(f)
 
 
@@ -278,8 +280,9 @@ def tensor_s(t):
     return "|".join(";".join(hexn(t2[i, :, r]) for r in range(R)) for i in range(B))
 
 
-def three_factor_line(tag, cfg, B, red, dpost_b, dpre_b, a, c, lt):
-    signal, scale = signal_of(cfg, B), cfg["scale"]
+def three_factor_line(tag, cfg, B, red, dpost_b, dpre_b, a, c, lt, signal):
+    # the sign flags come from the rates and the reward ONLY; `scale` enters through |signal * scale|
+    scale = cfg["scale"]
     if isinstance(signal, torch.Tensor):
         ss = (signal * scale).abs().view(-1, *repeat(1, dpost_b.ndim - 1))
         x, y = dpost_b * ss, dpre_b * ss
@@ -306,35 +309,80 @@ class TrainerRaised(Exception):
     pass
 
 
+def override_kwargs(cfg):
+    """per-cell hyperparameter overrides for `register_cell` (documented feature)"""
+    f, a, c = cfg["family"], cfg["lr_a"], cfg["lr_b"]
+    if f in ("STDP", "MSTDP", "MSTDPET"):
+        return {"lr_post": a, "lr_pre": c}
+    if f == "TripletSTDP":
+        return {"lr_post_pair": a, "lr_pre_pair": c}
+    if f in ("DelayAdjustedSTDP", "DelayAdjustedMSTDP"):
+        return {"lr_pos": a, "lr_neg": c}
+    if f in ("DelayAdjustedSTDPD", "DelayAdjustedMSTDPD"):
+        return {"lr_neg": a, "lr_pos": c}
+    if f in KERNEL:
+        return {"kernel_post_kwargs": {"learning_rate": a, "time_constant": cfg["tc_a"]},
+                "kernel_pre_kwargs": {"learning_rate": c, "time_constant": cfg["tc_b"]}}
+    if f == "LinearHomeostasis":
+        return {"plasticity": a}
+    raise AssertionError(f)
+
+
+def cell_cfgs(cfg):
+    """the trainer's cells: one registered with the trainer defaults and, if `override` is given,
+    a second one registered with per-cell learning rates (`override` = {lr_a, lr_b})"""
+    out = [dict(cfg, cell="default")]
+    if cfg.get("override"):
+        out.append(dict(cfg, cell="override", **cfg["override"]))
+    return out
+
+
 def run_case(cfg):
-    """-> list of records {line, m, s, net, step}: one per trainer call"""
+    """-> list of records {line, m, s, net, step, cell[, delta]}: one per trainer call and cell"""
     B, kind = cfg["B"], cfg["layer"]
-    layer = make_layer(kind, B)
-    if cfg.get("delays"):
-        layer.connection.delay = torch.tensor(cfg["delays"], dtype=torch.float64).reshape(layer.connection.delay.shape)
     trainer = build_trainer(cfg)
-    unit = trainer.register_cell("cell", layer.cell)
     pname = target_param(cfg)
+    cells = []
+    for ccfg in cell_cfgs(cfg):
+        layer = make_layer(kind, B)
+        if cfg.get("delays"):
+            layer.connection.delay = torch.tensor(cfg["delays"], dtype=torch.float64).reshape(layer.connection.delay.shape)
+        kw = override_kwargs(ccfg) if ccfg["cell"] == "override" else {}
+        unit = trainer.register_cell(ccfg["cell"], layer.cell, **kw)
+        cells.append((ccfg, layer, unit))
     recs = []
     for step, (pre, post) in enumerate(cfg["history"]):
         pre_t = torch.tensor(pre, dtype=torch.bool).reshape(B, 3)
         post_t = torch.tensor(post, dtype=torch.bool).reshape(B, nout(kind))
-        _ = layer(pre_t, neuron_kwargs={"override": post_t})
-        for n in layer.connection.updater.names:
-            delattr(layer.connection.updater, n)
+        for _, layer, _u in cells:
+            _ = layer(pre_t, neuron_kwargs={"override": post_t})
+            if not cfg.get("apply"):
+                for n in layer.connection.updater.names:
+                    delattr(layer.connection.updater, n)
+        signal = signal_of(cfg, B, step) if cfg["family"] in THREE_FACTOR else None
         try:
             if cfg["family"] in THREE_FACTOR:
-                trainer(signal_of(cfg, B), cfg["scale"])
+                trainer(signal, cfg["scale"])
             else:
                 trainer()
         except Exception as e:
             raise TrainerRaised(f"{type(e).__name__}: {e}") from e
-        line = request_line(cfg, layer, unit)
-        acc = getattr(layer.connection.updater, pname)
-        m, s, net = real_views(acc, getattr(layer.connection, pname))
-        if line.startswith("homeo"):
-            s = m
-        recs.append({"line": line, "m": m, "s": s, "net": net, "step": step})
+        for ccfg, layer, unit in cells:
+            line = request_line(ccfg, layer, unit, signal)
+            acc = getattr(layer.connection.updater, pname)
+            m, s, net = real_views(acc, getattr(layer.connection, pname))
+            if line.startswith("homeo"):
+                s = m
+            rec = {"line": line, "m": m, "s": s, "net": net, "step": step, "cell": ccfg["cell"]}
+            acc_shape = next((t.shape for t in (acc.pos, acc.neg) if t is not None), None)
+            if cfg.get("apply"):
+                # no bounding configured: `update()` must change the parameter by exactly pos - neg
+                old = getattr(layer.connection, pname).detach().clone()
+                layer.connection.update()
+                rec["delta"] = getattr(layer.connection, pname).detach() - old
+                pp = acc_shape
+                rec["part_shape"] = tuple(pp) if pp is not None else tuple(old.shape)
+            recs.append(rec)
     return recs
 
 
@@ -373,7 +421,8 @@ def base_cfg(rng, family, sa, sb):
            "tc_a": rng.choice([10.0, 20.0]), "tc_b": rng.choice([15.0, 25.0]),
            "trace": rng.choice(["cumulative", "nearest"]), "red": rng.choice(["sum", "mean", "amax"]),
            "delayed": rng.random() < 0.3 and family in ("STDP", "TripletSTDP", "MSTDP", "KernelSTDP"),
-           "scale": rng.choice([1.0, 0.5, 2.0])}
+           "scale": rng.choice([1.0, 0.5, 2.0, -1.0, -0.5, 0.0]) if family in THREE_FACTOR else 1.0}
+    cfg["apply"] = (not family.endswith("STDPD")) and rng.random() < 0.5
     if family.startswith("DelayAdjusted") or cfg["delayed"]:
         ne = (nout(kind) * 3) if kind == "dense" else 3
         cfg["delays"] = [float(rng.choice([0, 1, 2])) for _ in range(ne)]
@@ -409,8 +458,77 @@ def cases_for(rng, thorough):
                                          else [rng.choice([1.0, -1.0, 0.5, -2.0, 0.0]) for _ in range(3)])
                     cfg["history"] = rand_history(rng, cfg["B"], cfg["layer"], rng.randint(5, 8))
                     cfg["stream"] = "random"
+                    if rng.random() < 0.35:       # a second cell with per-cell rates of another sign mode
+                        oa, ob = rng.choice([m for m in SIGNS if m != (sa, sb)])
+                        cfg["override"] = {"lr_a": oa * rng.choice([0.5, 0.25]), "lr_b": ob * rng.choice([0.5, 0.125])}
                     cases.append(cfg)
     return cases
+
+
+def override_cases(rng):
+    """two cells per trainer: one registered with the trainer defaults, one with per-cell learning
+    rates whose SIGN MODE differs from the defaults (every family accepts per-cell rates)"""
+    out = []
+    for family in FAMILIES:
+        for (sa, sb), (oa, ob) in (((1, -1), (-1, 1)), ((1, 1), (-1, -1)), ((-1, 1), (1, 1))):
+            cfg = base_cfg(rng, family, sa, sb)
+            cfg["override"] = {"lr_a": oa * rng.choice([0.5, 0.25]), "lr_b": ob * rng.choice([0.5, 0.125])}
+            cfg["stream"] = "per-cell-override"
+            if family == "LinearHomeostasis":
+                cfg.update(param=rng.choice(["weight", "bias", "delay"]), target=rng.choice([0.9, 0.05]),
+                           lr_a=sa * 0.125, override={"lr_a": -sa * 0.25, "lr_b": 1.0})
+            if family in THREE_FACTOR:
+                cfg.update(signal_kind=rng.choice(["scalar", "tensor"]),
+                           signal=[rng.choice([1.0, -1.0, 0.5, -2.0]) for _ in range(3)])
+            cfg["history"] = rand_history(rng, cfg["B"], cfg["layer"], 6, p=0.45)
+            out.append(cfg)
+    return out
+
+
+def multistep_cases(rng):
+    """histories over which what is handed as depression CHANGES from step to step while the
+    parameter is updated (applied + cleared) in between: single-sign three-factor rules whose reward
+    changes sign (-,-,+,+,-,+), so that a step handing only potentiation follows steps handing only
+    depression; the applied change of EVERY step is compared with the signed rule"""
+    out = []
+    seq = [-1.0, -1.0, 1.0, 1.0, -1.0, 1.0, 1.0]
+    for family in THREE_FACTOR:
+        for (sa, sb) in ((1, 1), (-1, -1), (1, -1)):
+            for kind in ("scalar", "tensor"):
+                cfg = base_cfg(rng, family, sa, sb)
+                g = rng.choice([1.0, 0.5, 2.0])
+                cfg.update(signal_kind=kind, scale=rng.choice([1.0, 0.5]), red="sum", delayed=False,
+                           signal_seq=[[sg * g] * 3 for sg in seq], signal=[seq[0] * g] * 3,
+                           apply=not family.endswith("STDPD"), stream="multi-step")
+                cfg.pop("delays", None)
+                if family.startswith("DelayAdjusted"):
+                    ne = (nout(cfg["layer"]) * 3) if cfg["layer"] == "dense" else 3
+                    cfg["delays"] = [float(rng.choice([0, 1])) for _ in range(ne)]
+                cfg["history"] = rand_history(rng, cfg["B"], cfg["layer"], len(seq), p=0.6)
+                out.append(cfg)
+    return out
+
+
+def scale_twin_cases(rng):
+    """three-factor rules called with scale = +g and scale = -g (and 0): only |scale| may matter, the
+    twins must hand identical parts"""
+    out = []
+    for family in THREE_FACTOR:
+        for kind, ssign in (("scalar", 1.0), ("scalar", -1.0), ("tensor", 0.0)):
+            sa, sb = rng.choice(SIGNS)
+            cfg = base_cfg(rng, family, sa, sb)
+            g = rng.choice([1.0, 0.5, 2.0])
+            cfg.update(signal_kind=kind, apply=False, stream="scale-sign",
+                       signal=([ssign * rng.choice([1.0, 0.5])] * 3 if kind == "scalar"
+                               else [rng.choice([1.0, -1.0, 0.5, -2.0]) for _ in range(3)]))
+            cfg["history"] = rand_history(rng, cfg["B"], cfg["layer"], 5, p=0.5)
+            out.append(dict(cfg, scale=g))
+            out.append(dict(cfg, scale=-g, twin=True))       # compared with the case just before it
+        z = base_cfg(rng, family, 1, -1)
+        z.update(signal_kind="scalar", signal=[1.0] * 3, scale=0.0, apply=False, stream="scale-sign")
+        z["history"] = rand_history(rng, z["B"], z["layer"], 4, p=0.5)
+        out.append(z)
+    return out
 
 
 def direction_cases(rng):
@@ -459,6 +577,16 @@ def is_d9(rec, dm, ds):
         return False
 
 
+def expected_delta(dm, like):
+    """pos - neg of the Lean-routed parts (`None` contributes nothing)"""
+    vals = []
+    for kv in dm.split():
+        v = kv.split("=", 1)[1]
+        vals.append(None if v == "None" else torch.tensor([hex2f(x) for x in v.split(",")], dtype=like.dtype))
+    z = torch.zeros_like(next(v for v in vals if v is not None))
+    return (vals[0] if vals[0] is not None else z) - (vals[1] if vals[1] is not None else z)
+
+
 def split_resp(resp):
     if resp.startswith("M ") and " || S " in resp:
         m, s = resp[2:].split(" || S ", 1)
@@ -477,7 +605,7 @@ def explore(ctx) -> Exploration:
     old = torch.get_default_dtype()
     torch.set_default_dtype(torch.float64)
     try:
-        cases = cases_for(rng, thorough) + direction_cases(rng)
+        cases = cases_for(rng, thorough) + direction_cases(rng) + override_cases(rng) + multistep_cases(rng) + scale_twin_cases(rng)
         runs = []
         for cfg in cases:
             try:
@@ -493,7 +621,12 @@ def explore(ctx) -> Exploration:
     resp = ctx.run_driver(DRIVER, flat) if flat else []
     pos = 0
     seen_keys = {}
+    prev_recs = None
     for cfg, recs in zip(cases, runs):
+        ex.count("cells", "default+override" if cfg.get("override") else "default")
+        ex.count("clearing", "update() applied" if cfg.get("apply") else "del updater.<param>")
+        if cfg["family"] in THREE_FACTOR:
+            ex.count("scale", "negative" if cfg["scale"] < 0 else ("zero" if cfg["scale"] == 0 else "positive"))
         ex.count("family", fam_key(cfg))
         ex.count("sign_mode", f"{'+' if cfg['lr_a'] >= 0 else '-'}{'+' if cfg['lr_b'] >= 0 else '-'}")
         ex.count("batch_reduction", cfg["red"])
@@ -526,11 +659,29 @@ def explore(ctx) -> Exploration:
             elif not view_close(rec["m"], dm):
                 bad = ("model", f"C09:model:{fam_key(cfg)}",
                        f"{cfg['family']} step {rec['step']}: real parts `{rec['m']}`, Lean routing `{dm}`")
+            if bad is None and "delta" in rec:
+                want = expected_delta(dm, rec["delta"].reshape(-1)[: 1]).reshape(rec["part_shape"]).expand(rec["delta"].shape) \
+                    if "None" not in dm.split()[0] or "None" not in dm.split()[1] else torch.zeros_like(rec["delta"])
+                if not bool(((rec["delta"] - want).abs() <= TOL * torch.maximum(torch.ones_like(want), want.abs())).all()):
+                    bad = ("spec", f"C09:applied:{fam_key(cfg)}",
+                           f"{cfg['family']} step {rec['step']} (cell {rec['cell']}): update() with no bounding changed {target_param(cfg)} by {rec['delta'].tolist()}, "
+                           f"potentiation minus depression of the parts of this step is {want.tolist()}")
+                ex.count("applied_change_checks", cfg["stream"])
             if bad and seen_keys.get(bad[1], 0) < 3:
                 seen_keys[bad[1]] = seen_keys.get(bad[1], 0) + 1
                 ex.findings.append(Finding(kind=bad[0], key=bad[1], what=bad[2],
                                            case={"config": slim(cfg), "step": rec["step"], "request": rec["line"],
                                                  "expected": r, "observed": f"M {rec['m']} || S {rec['s']}"}))
+        # scale = -g must hand the same parts as scale = +g
+        if cfg.get("twin") and prev_recs is not None and len(prev_recs) == len(recs):
+            ex.count("scale_twins", cfg["family"])
+            for ra, rb in zip(prev_recs, recs):
+                if not view_close(ra["m"], rb["m"]):
+                    ex.findings.append(Finding(kind="spec", key=f"C09:scale-sign:{cfg['family']}",
+                                               what=f"{cfg['family']} step {rb['step']}: scale={-cfg['scale']} hands `{ra['m']}`, scale={cfg['scale']} hands `{rb['m']}` (only |scale| may matter)",
+                                               case={"config": slim(cfg), "step": rb["step"]}))
+                    break
+        prev_recs = recs
         # direction on the real accumulators (independent of the driver)
         if cfg["stream"].startswith(("causal", "anti-causal")) and nets:
             tot = torch.stack(nets, 0)
@@ -552,6 +703,9 @@ def explore(ctx) -> Exploration:
                "5-8 steps with random time constants, trace modes, delays and batch reductions (sum / mean / amax); after every trainer() call the "
                "accumulators are read and compared with the Lean routing of the magnitudes recomputed from the monitors, with the signed rule, "
                "and checked >= 0; plus causal-only / anti-causal-only histories under Hebbian signs (direction) with both reward signs; "
+               "plus two-cell trainers whose second cell is registered with per-cell rates of a different sign mode; multi-step histories in which "
+               "the reward changes sign (-,-,+,+,-,+) with connection.update() between the steps, the applied change of every step compared with "
+               "pos - neg of that step; three-factor rules with negative and zero `scale` and +g / -g twins that must hand identical parts; "
                "a call is non-trivial when some part is non-zero; distinct = distinct driver request")
     ex.samples = [{"config": {k: v for k, v in cases[0].items() if k != "history"}, "request": runs[0][-1]["line"] if runs[0] else None},
                   {"config": {k: v for k, v in cases[-1].items() if k != "history"}}]
